@@ -82,6 +82,15 @@ func (e *Env) ElementCandidates() []string {
 			}
 		}
 	}
+	// near-misses of allowed names (one character more at either end): a substring or prefix match
+	// where an exact one is due admits them
+	for _, n := range e.Spec.AllowedElementNames() {
+		for _, v := range []string{n + "2", "x" + n, n + "-"} {
+			if !seen[v] && !e.Spec.ElementAllowed(v) && len(out) < 4000 {
+				add(v, 1)
+			}
+		}
+	}
 	for _, n := range allElementVocab {
 		if !seen[n] && e.Spec.ElementAllowed(n) {
 			add(n, 2)
@@ -247,6 +256,17 @@ func (e *Env) attrValue(r *rand.Rand, el, key string) string {
 		ru := rules[r.Intn(len(rules))]
 		if ru.Re != "" {
 			good, bad := gen.Pools(ru.Re)
+			if len(good) > 0 && r.Intn(15) == 0 {
+				// an accepted value with one character spelled as the TEXT of a character reference: decoded
+				// once (as the attribute value is) it still carries "&#..;", decoded twice it is the accepted value
+				g := good[r.Intn(len(good))]
+				if g != "" {
+					k := r.Intn(len(g))
+					if g[k] < 0x80 {
+						return g[:k] + fmt.Sprintf(gen.Pick(r, []string{"&#%d;", "&#x%x;", "&#%d"}), g[k]) + g[k+1:]
+					}
+				}
+			}
 			if len(good) > 0 && (r.Intn(3) > 0 || len(bad) == 0) {
 				return good[r.Intn(len(good))]
 			}
